@@ -31,6 +31,26 @@ Tie: identifiers.pick_col_ident / pick_table_ident / pick_col_ident_list / _sani
 Search (direct oracle, independent of the model): `str.isidentifier`, `keyword.iskeyword`, the
   regex shape, case-insensitive distinctness, and "valid unused names are kept", evaluated on the
   REAL outputs.
+
+Engine level (`engine_level`, every run): SEVERAL names requested by ONE user action or bundle through the
+  real engine - BulkUpdateRecord on _grist_Tables {tableId: [...]}, on the raw sections' {title: [...]}, on
+  _grist_Tables_column {colId: [...]} / {label: [...]} (columns of one or of two tables), bundles of
+  RenameTable / AddTable / RenameColumn / AddColumn|AddVisibleColumn|AddHiddenColumn, AddTable with
+  colliding column names, table renames next to a summary table, BulkAddRecord on _grist_Tables_column -
+  with requests built to sanitise to equal / case-insensitively equal identifiers, to existing ids, to the
+  other members' old ids, or to nothing (generated names).  Requests are `str` or `None` (the user-action
+  API's types).  Judged by the DIRECT ORACLE `eng_judge` only, on the metadata and the engine after the
+  action: every table id / column id valid and non-keyword, table ids pairwise different case-insensitively,
+  column ids of a table pairwise different case-insensitively and different from `id`, engine tables and
+  Engine.schema equal to what the metadata describes, every data column's cells unchanged and reachable
+  under the new ids, ids nobody asked to change unchanged, and the action NOT rejected (a free name always
+  exists).  "Kept as is" at this level: a valid requested name that is unused in its scope before the
+  action and is not the id of anything else after it (the engine carries one set of picked names through a
+  whole action, so a name picked for a column of another table in the same action counts as picked:
+  'every other id chosen in the same batch'; that over-avoidance is counted, not judged) must be the id.
+  The Lean model does not contain the engine's avoid-set bookkeeping; it takes part only through a tie
+  per requested name (`eng_tie_ops`: model pick for the avoid set the HARNESS rebuilds from the state
+  before the action and the ids the engine chose for the earlier members).
 """
 import itertools
 import keyword
@@ -527,7 +547,11 @@ def run(ck):
              "pick_table_ident, pick_col_ident_list and the helpers; plus ALL strings of length <= 3 (thorough: <= 4) "
              "over a 10 (12)-symbol alphabet x 3 avoid sets; non-trivial = a public pick_* call whose result differs "
              "from the requested name (sanitised, keyword-prefixed, suffixed or generated); distinct by (function, "
-             "request, avoid)")
+             "request, avoid). Engine level: 16 fixed witnesses + generated documents (quick 9, thorough 80) of 3-4 "
+             "tables, each taking ~8 actions that request 1-6 names at once (bulk tableId / raw-section title / colId / "
+             "label updates, bundles of renames and adds, AddTable with colliding columns, summary-table renames, "
+             "BulkAddRecord on the column metadata); non-trivial there = an action with two requests whose sanitised "
+             "forms are case-insensitively equal, two empty requests, or a request equal to an existing id")
   ck.assumptions = [
     "requested names are str, None or objects with str(); existing names are str",
     "'case-insensitively' = equality of str.upper() forms (the code's comparison); identical to lower()/casefold() "
@@ -535,6 +559,15 @@ def run(ck):
     "model parameters: NFKD + combining-strip and str.upper are computed by the harness with the same stdlib calls; "
     "str.upper idempotent and NFKD identity on ASCII are re-validated over all code points every run",
     "keyword list = keyword.kwlist of the interpreter running the engine (regenerated every run)",
+    "engine level (several names requested by one user action / bundle): judged by the direct oracle eng_judge ONLY "
+    "(clauses evaluated on _grist_Tables / _grist_Tables_column, Engine.tables, Engine.schema and fetch_table after "
+    "the action); the engine's bookkeeping of names already picked within an action (avoid_tableid_set, "
+    "avoid_colid_set, _pick_col_name) is NOT modelled in Lean - the tie there compares each chosen id with the model's "
+    "pick_table_ident / pick_col_ident / pick_col_ident_list for an avoid set rebuilt by the harness (state before the "
+    "action + ids the engine actually chose for the earlier members), and is skipped on documents with summary tables",
+    "engine level: requests are str or None; documents have 3-4 user tables with Text/Ref/formula columns and two rows; "
+    "'kept as is' = valid, unused in its scope before the action and not the id of anything else after it; a column "
+    "name picked for another table in the same action counts as picked (counted as over-avoidance, not judged)",
   ]
   kws = translate.gen_keywords()
   ck.lean(["GristProps.C21"])
@@ -579,21 +612,769 @@ def driver_parallel(ck, ops):
   return [r for chunk in res for r in chunk]
 
 
-def engine_level(ck):
-  """Engine-level use (AddColumn/AddTable/renames through the engine) is added separately."""
+# --------------------------------------------------------------------------- engine level
+# Several names requested by ONE user action / bundle (the engine-side bookkeeping of "names already
+# picked within this action": useractions._updateTableRecords `avoid_tableid_set`,
+# _updateColumnRecords `avoid_colid_set`, doAddTable's pick_col_ident_list, _pick_col_name).
+# Everything below is judged by the DIRECT ORACLE `eng_judge` (the property's clauses on the
+# metadata / engine state after the action); the Lean model takes part only through the per-step
+# tie `eng_tie_ops` (one model pick per requested name, the avoid set rebuilt by the harness).
+ENG_TABLE_POOL = ["Alpha", "Beta", "Other", "Report", "Report2", "Sales_2024", "Table1", "Gamma", "T5", "If",
+                  "Data", "A", "My_table"]
+ENG_COL_POOL = ["a", "b", "c", "x_y", "X_y2", "name", "Name2", "A", "q", "c5", "total", "If", "label"]
+ENG_BASES = ["Report", "Sales 2024", "gamma", "Table1", "Table", "class", "if", "None", "1st", "x1", "A", u"é",
+             u"straße", u"中", u"", "a b", "Name", "id", "manualSort", "group", "T", "c", u"Első oszlop", "2024",
+             "fi", "X_y", "total_", "Data Set", "my table", "Q"]
+ENG_TABLE_FAMILIES = ("bulk_tableId", "bulk_title", "bundle_RenameTable", "bundle_AddTable")
+ENG_COL_FAMILIES = ("bulk_colId", "bulk_label", "bundle_RenameColumn", "bundle_AddColumn", "AddTable_cols")
+KNOWN_META_ADD = ("engine/meta_add_cols: BulkAddRecord on _grist_Tables_column stores the requested colIds verbatim "
+                  "and creates no column (no sanitising, no disambiguation, no schema action)")
+
+
+def approx_ident(req, table):
+  """What a request becomes with an empty avoid set (independent approximation; used only to aim
+  the generator at collisions and to COUNT the situations exercised, never to judge)."""
+  t = re.sub(r'[^a-zA-Z0-9_]+', '_', norm(req)).lstrip('_')
+  if not t:
+    return None
+  if t[0].isdigit():
+    t = ("T" if table else "c") + t
+  if table:
+    t = t[0].upper() + t[1:]
+  while keyword.iskeyword(t):
+    t = ("T" if table else "c") + t
+  return t
+
+
+def eng_variant(rng, base):
+  """A request that (mostly) sanitises to the same identifier as `base`, or to a case variant of it,
+  or to the id the suffix loop would pick next (base2)."""
+  b = u"" if base is None else base
+  k = rng.random()
+  if k < 0.22:
+    return base
+  if k < 0.42:
+    return case_variant(rng, b)
+  if k < 0.52:
+    return b.replace("_", " ") if "_" in b else re.sub(r"[ \-./]+", "_", b)
+  if k < 0.60:
+    return rng.choice([" ", "_", "-", "  ", "__", "\t"]) + b          # leading junk is stripped
+  if k < 0.68:
+    return (b[:1] + u"́" + b[1:]) if b else b                     # combining mark is stripped
+  if k < 0.74:
+    for i, c in enumerate(b):
+      if c.isascii() and c.isalnum():
+        return b[:i] + chr(ord(c) + 0xFEE0) + b[i + 1:]                 # full-width form, NFKD -> ASCII
+    return b
+  if k < 0.84:
+    return b + rng.choice(["2", "_2", "3", "2", "1"])                   # the name the suffix loop wants next
+  if k < 0.90:
+    return re.sub(r"[^A-Za-z0-9]+", lambda m: rng.choice(["-", ".", "/", "  ", "$"]), b)
+  return base
+
+
+def eng_reqs(rng, k, existing, olds):
+  """k requested names aimed at colliding with each other (and sometimes with existing ids / with the
+  old ids of the other members of the batch).  str or None only (the user-action API's types)."""
+  r = rng.random()
+  if r < 0.15 and existing:
+    base = rng.choice(existing)
+  elif r < 0.25 and olds:
+    base = rng.choice(olds)
+  elif r < 0.78:
+    base = rng.choice(ENG_BASES)
+  else:
+    base = rand_request(rng)
+    if base is not None and not isinstance(base, str):
+      base = str(base)
+  out = []
+  for _ in range(k):
+    q = rng.random()
+    if q < 0.78:
+      out.append(eng_variant(rng, base))
+    elif q < 0.86:
+      out.append(rand_text(rng))
+    elif q < 0.90:
+      out.append(None)
+    else:
+      pool = list(existing) + list(olds)
+      out.append(case_variant(rng, rng.choice(pool)) if pool else base)
+  return out
+
+
+def eng_colinfo(cid, typ="Text", formula="", is_formula=False):
+  return {"id": cid, "type": typ, "isFormula": is_formula, "formula": formula}
+
+
+def eng_pick_distinct(rng, pool, n):
+  out, seen = [], set()
+  for x in rng.sample(pool, len(pool)):
+    if x.upper() not in seen:
+      out.append(x); seen.add(x.upper())
+    if len(out) == n:
+      break
+  return out
+
+
+def eng_build(rng, summary=False):
+  """History prefix (list of bundles) creating 3-4 small tables with data, a Ref column, a formula."""
+  nt = rng.choice([3, 3, 4])
+  tids = eng_pick_distinct(rng, ENG_TABLE_POOL, nt)
+  bundle = []
+  for i, tid in enumerate(tids):
+    cids = eng_pick_distinct(rng, ENG_COL_POOL, rng.choice([2, 3, 3]))
+    cols = [eng_colinfo(c) for c in cids]
+    if i > 0 and rng.random() < 0.5:
+      cols.append(eng_colinfo("r", "Ref:" + tids[i - 1]))
+    if rng.random() < 0.4:
+      cols.append(eng_colinfo("f", "Any", "$" + cids[0], True))
+    bundle.append(["AddTable", tid, cols])
+    bundle.append(["BulkAddRecord", tid, [None, None],
+                   {c: ["%s.%s.%d" % (tid, c, j) for j in (1, 2)] for c in cids}])
+  hist = [bundle]
+  if summary:
+    # a summary table of the first table grouped by its first data column (column ref 2)
+    hist.append([["CreateViewSection", 1, 0, "record", [2], None]])
+  return hist
+
+
+def eng_observe(doc):
+  """Metadata + engine view of the names and the data, read through the engine's public reads."""
+  from gx import engine_driver as ed
+  o = {"tables": {}, "cols": {}, "data": {}, "unreachable": []}
+  for r in doc.meta("_grist_Tables"):
+    o["tables"][int(r["id"])] = {"id": r["tableId"], "summary": int(r["summarySourceTable"] or 0),
+                                 "raw": int(r["rawViewSectionRef"] or 0)}
+  for r in doc.meta("_grist_Tables_column"):
+    o["cols"][int(r["id"])] = {"t": int(r["parentId"] or 0), "id": r["colId"], "label": r["label"],
+                               "isFormula": bool(r["isFormula"]),
+                               "summarySourceCol": int(r["summarySourceCol"] or 0)}
+  o["engine_tables"] = sorted(doc.engine.tables.keys())
+  for tref, t in o["tables"].items():
+    try:
+      td = doc.engine.fetch_table(t["id"], formulas=False)
+    except Exception as e:      # pylint: disable=broad-except
+      o["unreachable"].append([tref, t["id"], type(e).__name__])
+      continue
+    rows = list(td.row_ids)
+    for cref, c in o["cols"].items():
+      if c["t"] == tref and not c["isFormula"] and c["id"] != "manualSort" and c["id"] in td.columns:
+        o["data"][cref] = [rows, [ed.tokv(v) for v in td.columns[c["id"]]]]
+  o["schema_engine"] = doc.engine_schema()
   try:
-    from gx import engine_driver
-  except ImportError:
-    return
-  fn = getattr(engine_driver, "c21_identifiers", None)
-  if fn:
-    fn(ck, check_one)
+    o["schema_meta"] = doc.meta_schema()
+  except Exception as e:        # pylint: disable=broad-except
+    o["schema_meta"] = {"<error>": type(e).__name__}
+  return o
+
+
+def eng_user_tables(obs, summary=False):
+  return [ref for ref, t in sorted(obs["tables"].items()) if bool(t["summary"]) == summary]
+
+
+def eng_table_cols(obs, tref, pickable=False):
+  out = []
+  for cref, c in sorted(obs["cols"].items()):
+    if c["t"] != tref:
+      continue
+    if pickable and (c["id"] == "manualSort" or not isinstance(c["id"], str) or c["id"].startswith("gristHelper_")
+                     or c["summarySourceCol"]):
+      continue
+    out.append(cref)
+  return out
+
+
+def eng_gen_step(rng, obs, family):
+  """One user action / bundle requesting several names at once.  Returns a step dict or None."""
+  tabs = eng_user_tables(obs)
+  tids = [obs["tables"][r]["id"] for r in tabs]
+  all_tids = [t["id"] for t in obs["tables"].values() if isinstance(t["id"], str)]
+  kk = lambda n: max(1, min(n, rng.choice([1, 2, 2, 2, 3, 3, 4])))
+  if family in ("bulk_tableId", "bulk_title", "bundle_RenameTable", "bulk_tableId_summary"):
+    if not tabs:
+      return None
+    refs = rng.sample(tabs, kk(len(tabs)))
+    sums = [t for t in obs["tables"].values() if t["summary"]]
+    if family == "bulk_tableId_summary" and sums and len(tabs) >= 2:
+      src_ref = sums[0]["summary"]
+      refs = [src_ref] + [r for r in refs if r != src_ref]
+      if len(refs) < 2:
+        refs.append(rng.choice([r for r in tabs if r != src_ref]))
+      rng.shuffle(refs)
+    olds = [obs["tables"][r]["id"] for r in refs]
+    reqs = eng_reqs(rng, len(refs), [t for t in all_tids if t not in olds], olds)
+    if family == "bulk_tableId_summary":
+      # aim at the ids the summary tables of the renamed sources will want
+      sums = [t for t in sums if t["summary"] in refs]
+      if sums and len(refs) >= 2:
+        st = sums[0]
+        i = refs.index(st["summary"])
+        gb = sorted(c["id"] for c in obs["cols"].values()
+                    if c["summarySourceCol"] and obs["tables"].get(c["t"]) is st)
+        base = approx_ident(reqs[i], True) or "Table1"
+        j = (i + 1) % len(refs)
+        reqs[j] = eng_variant(rng, base + "_summary" + "".join("_" + g for g in gb))
+      family_out = "bulk_tableId"
+    else:
+      family_out = family
+    if family in ("bulk_tableId", "bulk_tableId_summary"):
+      bundle = [["BulkUpdateRecord", "_grist_Tables", refs, {"tableId": reqs}]]
+    elif family == "bulk_title":
+      bundle = [["BulkUpdateRecord", "_grist_Views_section", [obs["tables"][r]["raw"] for r in refs], {"title": reqs}]]
+    else:
+      bundle = [["RenameTable", o, q] for o, q in zip(olds, reqs)]
+    members = [{"k": "table", "ref": r, "req": q} for r, q in zip(refs, reqs)]
+    return {"family": family_out, "bundle": bundle, "members": members}
+  if family == "bundle_AddTable":
+    n = rng.choice([2, 2, 3])
+    reqs = eng_reqs(rng, n, all_tids, [])
+    bundle = [["AddTable", q, [eng_colinfo("a"), eng_colinfo("b")]] for q in reqs]
+    return {"family": family, "bundle": bundle, "members": [{"k": "table", "ref": None, "req": q} for q in reqs]}
+  if family == "AddTable_cols":
+    n = rng.choice([2, 3, 3, 4, 6])
+    tq = eng_reqs(rng, 1, all_tids, [])[0]
+    reqs = eng_reqs(rng, n, ["id", "manualSort"], [])
+    bundle = [["AddTable", tq, [eng_colinfo(q) for q in reqs]]]
+    members = [{"k": "table", "ref": None, "req": tq}] + [{"k": "col", "ref": None, "req": q} for q in reqs]
+    return {"family": family, "bundle": bundle, "members": members}
+  # column families on existing tables
+  cands = [r for r in tabs if len(eng_table_cols(obs, r, True)) >= 1]
+  if not cands:
+    return None
+  t1 = rng.choice(cands)
+  crefs = eng_table_cols(obs, t1, True)
+  existing = [obs["cols"][c]["id"] for c in eng_table_cols(obs, t1)] + ["id"]
+  if family in ("bulk_colId", "bulk_label", "bundle_RenameColumn"):
+    refs = rng.sample(crefs, kk(len(crefs)))
+    if family != "bundle_RenameColumn" and len(cands) > 1 and rng.random() < 0.3:
+      t2 = rng.choice([r for r in cands if r != t1])      # the same action renames columns of two tables
+      c2 = eng_table_cols(obs, t2, True)
+      refs += rng.sample(c2, min(len(c2), rng.choice([1, 2])))
+      rng.shuffle(refs)
+    olds = [obs["cols"][c]["id"] for c in refs]
+    reqs = eng_reqs(rng, len(refs), [e for e in existing if e not in olds], olds)
+    if family == "bulk_colId":
+      bundle = [["BulkUpdateRecord", "_grist_Tables_column", refs, {"colId": reqs}]]
+    elif family == "bulk_label":
+      reqs = [u"" if q is None else q for q in reqs]
+      bundle = [["BulkUpdateRecord", "_grist_Tables_column", refs, {"label": reqs}]]
+    else:
+      bundle = [["RenameColumn", obs["tables"][obs["cols"][c]["t"]]["id"], o, q] for c, o, q in zip(refs, olds, reqs)]
+    members = [{"k": "col", "ref": c, "req": q} for c, q in zip(refs, reqs)]
+    return {"family": family, "bundle": bundle, "members": members}
+  n = rng.choice([2, 2, 3, 4])
+  reqs = eng_reqs(rng, n, existing, [])
+  tid = obs["tables"][t1]["id"]
+  if family == "bundle_AddColumn":
+    bundle = [[rng.choice(["AddColumn", "AddColumn", "AddVisibleColumn", "AddHiddenColumn"]), tid, q,
+               {"type": "Text", "isFormula": False}] for q in reqs]
+    return {"family": family, "bundle": bundle,
+            "members": [{"k": "col", "ref": None, "t": t1, "req": q} for q in reqs]}
+  if family == "meta_add_cols":
+    reqs = [u"" if q is None else q for q in reqs]
+    bundle = [["BulkAddRecord", "_grist_Tables_column", [None] * n,
+               {"parentId": [t1] * n, "colId": reqs, "type": ["Text"] * n}]]
+    return {"family": family, "bundle": bundle,
+            "members": [{"k": "col", "ref": None, "t": t1, "req": q} for q in reqs]}
+  raise ValueError(family)
+
+
+def eng_resolve(step, after, res):
+  """Fill in, for every member, the id the engine chose (`chosen`), its scope (`scope`: 'T' or the
+  table ref for a column) and the record ref.  Returns a problem string if the results cannot be
+  matched to the requests."""
+  fam = step["family"]
+  ret = res.ret
+  try:
+    if fam == "bundle_AddTable":
+      for m, r in zip(step["members"], ret):
+        m["ref"] = int(r["id"])
+    elif fam == "bundle_AddColumn":
+      for m, r in zip(step["members"], ret):
+        m["ref"] = int(r["colRef"])
+    elif fam == "meta_add_cols":
+      for m, r in zip(step["members"], ret[0]):
+        m["ref"] = int(r)
+    elif fam == "AddTable_cols":
+      r = ret[0]
+      step["members"][0]["ref"] = int(r["id"])
+      new = [c for c in sorted(after["cols"]) if after["cols"][c]["t"] == int(r["id"])][1:]   # [0] is manualSort
+      if len(new) != len(step["members"]) - 1 or len(r["columns"]) != len(new):
+        return "AddTable created %d column records for %d requested columns" % (len(new), len(step["members"]) - 1)
+      for m, c, cid in zip(step["members"][1:], new, r["columns"]):
+        m["ref"] = c
+        m["ret_id"] = cid
+  except (TypeError, KeyError, IndexError, ValueError) as e:
+    return "return values %r do not describe the created records (%s)" % (ret, type(e).__name__)
+  for m in step["members"]:
+    recs = after["tables"] if m["k"] == "table" else after["cols"]
+    rec = recs.get(m["ref"])
+    if rec is None:
+      return "record %s #%r is missing after the action" % (m["k"], m["ref"])
+    m["chosen"] = rec["id"]
+    m["scope"] = "T" if m["k"] == "table" else rec["t"]
+    if "ret_id" in m and m["ret_id"] != m["chosen"]:
+      return "AddTable returned column id %r but the metadata says %r" % (m["ret_id"], m["chosen"])
+  return None
+
+
+def eng_judge(step, before, after, res):
+  """The property's clauses on the state after ONE action/bundle that requested several names.
+  Written against metadata + engine reads only (no model).  Returns [(signature, detail)]."""
+  fam = step["family"]
+  P = "engine/%s: " % fam
+  reqs = [m["req"] for m in step["members"]]
+  if not res.ok:
+    # every batch of the generated kinds can be satisfied (a free name always exists)
+    return [(P + "satisfiable request rejected (%s)" % res.error[0],
+             "requested %r -> %s: %s" % (reqs, res.error[0], res.error[1]))]
+  bad = eng_resolve(step, after, res)
+  if bad:
+    return [(P + "created/renamed records cannot be matched to the requests", bad)]
+  members = step["members"]
+  if fam == "meta_add_cols":
+    # recorded finding (narrow): ids stored verbatim and no column exists in the engine
+    verbatim = all(m["chosen"] == m["req"] for m in members)
+    tid = after["tables"][members[0]["t"]]["id"]
+    have = set(after["schema_engine"].get(tid, {}))
+    had = set(before["schema_engine"].get(tid, {}))
+    if verbatim and have == had:
+      return [(KNOWN_META_ADD, "requested %r on table %r: metadata colIds now %r, engine columns %r" % (
+        reqs, tid, [after["cols"][c]["id"] for c in eng_table_cols(after, members[0]["t"])], sorted(have)))]
+  out = []
+  # ---- validity and case-insensitive uniqueness of EVERY id in the two scopes
+  tids = [(ref, t["id"]) for ref, t in sorted(after["tables"].items())]
+  seen = {}
+  for ref, tid in tids:
+    b = check_one("table id", None, set(), tid, True, keep_rule=False)
+    if b:
+      out.append((P + b[0], b[1] + " (table #%d; requested %r)" % (ref, reqs)))
+      continue
+    if tid.upper() in seen:
+      out.append((P + "two table ids equal case-insensitively after one action",
+                  "tables #%d %r and #%d %r; requested %r" % (seen[tid.upper()], after["tables"][seen[tid.upper()]]["id"],
+                                                            ref, tid, reqs)))
+    seen.setdefault(tid.upper(), ref)
+  for tref in sorted(after["tables"]):
+    seen = {"ID": 0}
+    for cref in eng_table_cols(after, tref):
+      cid = after["cols"][cref]["id"]
+      b = check_one("column id", None, set(), cid, False, keep_rule=False)
+      if b:
+        out.append((P + b[0], b[1] + " (column #%d of table %r; requested %r)" % (cref, after["tables"][tref]["id"], reqs)))
+        continue
+      if cid.upper() in seen:
+        o = seen[cid.upper()]
+        out.append((P + "two column ids of one table equal case-insensitively after one action",
+                    "table %r: column #%d %r and %s; requested %r" % (
+                      after["tables"][tref]["id"], cref, cid,
+                      "the built-in 'id'" if o == 0 else "#%d %r" % (o, after["cols"][o]["id"]), reqs)))
+      seen.setdefault(cid.upper(), cref)
+  if out:
+    return out
+  # ---- metadata and engine agree on the names; the data is reachable under the new names
+  meta_user = sorted(t["id"] for t in after["tables"].values())
+  eng_user = [t for t in after["engine_tables"] if not t.startswith("_grist_")]
+  if meta_user != eng_user:
+    out.append((P + "engine tables differ from the table ids in the metadata",
+                "engine %r metadata %r; requested %r" % (eng_user, meta_user, reqs)))
+  elif after["schema_engine"] != after["schema_meta"]:
+    d = [t for t in sorted(set(after["schema_engine"]) | set(after["schema_meta"]))
+         if after["schema_engine"].get(t) != after["schema_meta"].get(t)]
+    out.append((P + "engine schema differs from the schema described by the metadata",
+                "tables %r: engine columns %r, metadata columns %r; requested %r" % (
+                  d[:3], [sorted(after["schema_engine"].get(t, {})) for t in d[:3]],
+                  [sorted(after["schema_meta"].get(t, {})) for t in d[:3]], reqs)))
+  if after["unreachable"]:
+    out.append((P + "a table cannot be fetched under the id in its metadata record",
+                "%r; requested %r" % (after["unreachable"], reqs)))
+  for ref in before["tables"]:
+    if ref not in after["tables"]:
+      out.append((P + "a table record disappeared", "table #%d %r" % (ref, before["tables"][ref]["id"])))
+  for cref, dat in sorted(before["data"].items()):
+    if cref not in after["cols"]:
+      out.append((P + "a column record disappeared", "column #%d %r" % (cref, before["cols"][cref]["id"])))
+    elif after["data"].get(cref) != dat and not after["unreachable"]:
+      out.append((P + "data of a column is not reachable under its id after the action",
+                  "column #%d: was %r (table #%d) with cells %r, now id %r with cells %r; requested %r" % (
+                    cref, before["cols"][cref]["id"], before["cols"][cref]["t"], dat[1][:3],
+                    after["cols"][cref]["id"], (after["data"].get(cref) or [None, None])[1], reqs)))
+      break
+  # ---- frame: ids nobody asked to change stay (summary tables / their columns follow their source)
+  mt = {m["ref"] for m in members if m["k"] == "table"}
+  mc = {m["ref"] for m in members if m["k"] == "col"}
+  for ref, t in before["tables"].items():
+    a = after["tables"].get(ref)
+    if a and ref not in mt and not t["summary"] and a["id"] != t["id"]:
+      out.append((P + "id of a table that was not part of the request changed", "table #%d %r -> %r; requested %r" % (
+        ref, t["id"], a["id"], reqs)))
+  for cref, c in before["cols"].items():
+    a = after["cols"].get(cref)
+    if a and cref not in mc and not before["tables"][c["t"]]["summary"] and not c["summarySourceCol"] \
+       and a["id"] != c["id"]:
+      out.append((P + "id of a column that was not part of the request changed", "column #%d %r -> %r; requested %r" % (
+        cref, c["id"], a["id"], reqs)))
+  # ---- a valid, unused requested name is kept (unless another member of the batch got it)
+  all_chosen = [m["chosen"] for m in members]
+  for i, m in enumerate(members):
+    req, table = m["req"], m["k"] == "table"
+    if not is_valid_name(req, table):
+      continue
+    old = None
+    if m["ref"] in (before["tables"] if table else before["cols"]):
+      old = (before["tables"] if table else before["cols"])[m["ref"]]["id"]
+    if table:
+      used = [t["id"] for r, t in before["tables"].items() if r != m["ref"]] + before["engine_tables"]
+    else:
+      used = ["id"] + [c["id"] for r, c in before["cols"].items() if r != m["ref"] and (
+        c["t"] == m["scope"] or before["tables"].get(c["t"], {}).get("summary") == m["scope"])]
+    used_u = {u.upper() for u in used if isinstance(u, str)}
+    if old is not None and old != req and old.upper() == req.upper():
+      used_u.discard(old.upper())
+    # ids chosen for the other members of the action (whatever their table: the engine carries ONE set of
+    # picked names through the action) and every other id of the scope after the action (summary tables of
+    # a renamed source are renamed in the same action)
+    others = {c.upper() for j, c in enumerate(all_chosen) if j != i and isinstance(c, str)}
+    if table:
+      others |= {t["id"].upper() for r, t in after["tables"].items() if r != m["ref"] and isinstance(t["id"], str)}
+    else:
+      others |= {c["id"].upper() for r, c in after["cols"].items() if r != m["ref"] and isinstance(c["id"], str) and (
+        c["t"] == m["scope"] or after["tables"].get(c["t"], {}).get("summary") == m["scope"])}
+    if req.upper() in used_u or req.upper() in others:
+      continue
+    if m["chosen"] != req:
+      out.append((P + "valid unused requested name not kept",
+                  "%s #%r requested %r got %r (ids before %r; batch %r -> %r)" % (
+                    m["k"], m["ref"], req, m["chosen"], sorted(used_u)[:12], reqs, all_chosen)))
+  return out
+
+
+def eng_tie_ops(step, before):
+  """Per-member prediction by the Lean model (driver ops 'table' / 'col' / 'list'): the avoid set
+  of each pick is rebuilt here from the state before the action and the ids the engine ACTUALLY
+  chose for the earlier members (so the ops are independent).  Returns [(op, actual, what)].
+  Not attempted when summary tables are involved (their ids/columns join the avoid sets)."""
+  fam = step["family"]
+  ms = step["members"]
+  if fam == "meta_add_cols" or any(t["summary"] for t in before["tables"].values()):
+    return []
+  ops = []
+
+  def one(kind, req, avoid, actual, what):
+    ops.append(({"m": "identifiers", "op": kind, "s": cps(norm(req)),
+                 "avoid": [cps(a) for a in upper_set(a for a in avoid if isinstance(a, str))]}, actual, what))
+
+  if fam in ("bulk_tableId", "bulk_title", "bundle_RenameTable", "bundle_AddTable"):
+    S = set(before["engine_tables"])
+    for m in ms:
+      old = before["tables"][m["ref"]]["id"] if m["ref"] in before["tables"] else None
+      if old is not None and m["req"] == old:
+        ops.append((None, m["chosen"], old))
+        continue
+      one("table", m["req"], S - {old}, m["chosen"], "%s member %r" % (fam, m["req"]))
+      if fam == "bundle_RenameTable":
+        S.discard(old)
+      S.add(m["chosen"])
+    return ops
+  if fam == "AddTable_cols":
+    one("table", ms[0]["req"], set(before["engine_tables"]), ms[0]["chosen"], "AddTable table id")
+    ops.append(({"m": "identifiers", "op": "list", "l": [cps(norm(x)) for x in ["manualSort"] + [m["req"] for m in ms[1:]]],
+                 "avoid": [cps("ID")]}, ["manualSort"] + [m["chosen"] for m in ms[1:]], "AddTable column ids"))
+    return ops
+  cur = {}
+  for cref, c in before["cols"].items():
+    cur.setdefault(c["t"], {})[cref] = c["id"]
+  extra = set()
+  for m in ms:
+    t = m["scope"]
+    ids = cur.setdefault(t, {})
+    old = ids.get(m["ref"])
+    if old is not None and m["req"] == old:
+      ops.append((None, m["chosen"], old))
+      continue
+    avoid = (set(ids.values()) | {"id"} | extra) - {old}
+    one("col", m["req"], avoid, m["chosen"], "%s member %r" % (fam, m["req"]))
+    if fam in ("bulk_colId", "bulk_label"):
+      extra.add(m["chosen"])        # metadata is written at the end; picked names are carried in avoid_colid_set
+    else:
+      ids[m["ref"]] = m["chosen"]   # separate user actions: the metadata already has the new id
+  return ops
+
+
+def eng_classify(ck, step, before, res):
+  """Counters describing which of the 'several names in one action' situations a step exercised."""
+  fam = step["family"]
+  ms = step["members"]
+  ck.count("eng:family:" + fam)
+  ck.count("eng:requested_names", len(ms))
+  if len(ms) >= 2:
+    ck.count("eng:actions_with_2+_names")
+  nontrivial = False
+  for kind in ("table", "col"):
+    sub = [m for m in ms if m["k"] == kind]
+    ap = [approx_ident(m["req"], kind == "table") for m in sub]
+    groups = {}
+    for m, a in zip(sub, ap):
+      if a:
+        groups.setdefault(a.upper(), []).append((m["req"], a))
+    for g in groups.values():
+      if len(g) < 2:
+        continue
+      nontrivial = True
+      ck.count("eng:%s batches with case-insensitively equal sanitised requests" % kind)
+      if len({a for _, a in g}) > 1:
+        ck.count("eng:%s batches: sanitised requests differ only in case" % kind)
+      if len({q for q, _ in g}) < len(g):
+        ck.count("eng:%s batches: identical request repeated" % kind)
+      by_a = {}
+      for q, a in g:
+        by_a.setdefault(a, set()).add(q)
+      if any(len(v) > 1 for v in by_a.values()):
+        ck.count("eng:%s batches: different texts sanitising to the same id" % kind)
+    if sum(1 for a in ap if a is None) >= 2:
+      ck.count("eng:%s batches with 2+ empty requests (generated names)" % kind)
+      nontrivial = True
+    if kind == "table":
+      ex = {t["id"].upper() for r, t in before["tables"].items() if isinstance(t["id"], str)}
+    else:
+      ex = {"ID"} | {c["id"].upper() for c in before["cols"].values() if isinstance(c["id"], str)}
+    if any(a and a.upper() in ex for a in ap):
+      ck.count("eng:%s batches with a request equal to an existing id" % kind)
+      nontrivial = True
+  if res.ok:
+    ck.count("eng:actions_accepted")
+    for i, m in enumerate(ms):
+      a = approx_ident(m["req"], m["k"] == "table")
+      if a and isinstance(m.get("chosen"), str) and m["chosen"] != a and \
+         any(isinstance(o.get("chosen"), str) and o["chosen"].upper() == a.upper() for j, o in enumerate(ms) if j != i):
+        ck.count("eng:names suffixed because another member of the same action took the id")
+        if m["k"] == "col" and ms and any(o.get("scope") != m.get("scope") and isinstance(o.get("chosen"), str)
+                                          and o["chosen"].upper() == a.upper() for o in ms):
+          ck.count("eng:column suffixed because of a column of ANOTHER table in the same action (counted, not judged)")
+  else:
+    ck.count("eng:actions_rejected")
+  return nontrivial
+
+
+ENG_WITNESSES = [
+  # (family, member selector, requests): replayed first on every run, on tables Alpha/Beta/Other
+  ("bulk_tableId", [1, 2], ["Report", "Report"]),
+  ("bulk_tableId", [1, 2], ["Gamma", "gamma"]),
+  ("bulk_tableId", [1, 2], ["Sales 2024", "Sales_2024"]),
+  ("bulk_title", [1, 2], ["my table", "My_table"]),
+  ("bulk_tableId", [1, 2, 3], [u"", None, u" "]),
+  ("bulk_title", [2, 1], [u"Élan", u"elan"]),
+  ("bulk_tableId", [1, 2], ["Delta", "Other"]),
+  ("bundle_RenameTable", [1, 2], ["class", "Class"]),
+  ("bulk_colId", [2, 3, 4], ["x y", "X_y", "x-y"]),
+  ("bulk_label", [2, 3, 6], ["Q", "q", "Q"]),
+  ("bulk_colId", [2, 3], ["id", "ID"]),
+  ("bulk_colId", [2, 3, 4], [u"", None, u"-"]),
+  ("bundle_RenameColumn", [2, 3], ["if", "If"]),
+]
+# on a second document: the same three tables + a summary table of Alpha grouped by `a` (table #4
+# Alpha_summary_a, renamed by the engine in the action that renames Alpha)
+ENG_WITNESSES_SUMMARY = [
+  ("bulk_tableId", [1, 3], ["Beta9", "Beta9_summary_a"]),      # source first: the summary table's new id is taken
+  ("bulk_tableId", [3, 1], ["Zed_summary_a", "Zed"]),           # other table first: the summary table must move on
+  ("bulk_title", [2, 1], ["report summary a", "Report"]),
+]
+
+
+def eng_witness_step(obs, fam, sel, reqs):
+  if fam in ("bulk_tableId", "bulk_title", "bundle_RenameTable"):
+    if fam == "bulk_tableId":
+      bundle = [["BulkUpdateRecord", "_grist_Tables", list(sel), {"tableId": list(reqs)}]]
+    elif fam == "bulk_title":
+      bundle = [["BulkUpdateRecord", "_grist_Views_section", [obs["tables"][r]["raw"] for r in sel], {"title": list(reqs)}]]
+    else:
+      bundle = [["RenameTable", obs["tables"][r]["id"], q] for r, q in zip(sel, reqs)]
+    return {"family": fam, "bundle": bundle, "members": [{"k": "table", "ref": r, "req": q} for r, q in zip(sel, reqs)]}
+  if fam == "bulk_colId":
+    bundle = [["BulkUpdateRecord", "_grist_Tables_column", list(sel), {"colId": list(reqs)}]]
+  elif fam == "bulk_label":
+    bundle = [["BulkUpdateRecord", "_grist_Tables_column", list(sel), {"label": list(reqs)}]]
+  else:
+    bundle = [["RenameColumn", obs["tables"][obs["cols"][c]["t"]]["id"], obs["cols"][c]["id"], q] for c, q in zip(sel, reqs)]
+  return {"family": fam, "bundle": bundle, "members": [{"k": "col", "ref": c, "req": q} for c, q in zip(sel, reqs)]}
+
+
+ENG_WITNESS_BUILD = [[
+  ["AddTable", "Alpha", [eng_colinfo("a"), eng_colinfo("b"), eng_colinfo("c")]],
+  ["AddTable", "Beta", [eng_colinfo("b"), eng_colinfo("r", "Ref:Alpha"),
+                        eng_colinfo("f", "Any", "Alpha.lookupOne(a=$b).b", True)]],
+  ["AddTable", "Other", [eng_colinfo("c")]],
+  ["BulkAddRecord", "Alpha", [None, None], {"a": ["x", "y"], "b": ["1", "2"]}],
+  ["BulkAddRecord", "Beta", [None, None], {"b": ["x", "y"], "r": [1, 2]}],
+]]
+
+
+class EngSession(object):
+  """One document: history of bundles, judged steps."""
+  def __init__(self, ck, build):
+    from gx import engine_driver as ed
+    self.ck = ck
+    try:
+      self.doc = ed.Doc()
+    except Exception as e:       # pylint: disable=broad-except
+      from gx.common import Infra
+      raise Infra("cannot create an engine document: %s: %s" % (type(e).__name__, e))
+    self.history = []
+    self.tie = []
+    self.dirty = False
+    for b in build:
+      r = self.doc.apply(b)
+      if not r.ok:
+        from gx.common import Infra
+        raise Infra("scenario set-up bundle rejected: %r: %r" % (r.error, b))
+      self.history.append(b)
+    self.obs = eng_observe(self.doc)
+
+  def step(self, step):
+    ck = self.ck
+    before = self.obs
+    res = self.doc.apply(step["bundle"])
+    try:
+      after = eng_observe(self.doc)
+      probs = eng_judge(step, before, after, res)
+    except Exception as e:       # pylint: disable=broad-except
+      after = None
+      probs = [("engine/%s: state cannot be read after the action (%s)" % (step["family"], type(e).__name__),
+                "%s: %s" % (type(e).__name__, e))]
+    ck.evaluated()
+    ck.count("eng:actions")
+    rp = {"engine": True, "history": [list(b) for b in self.history],
+          "step": {"family": step["family"], "bundle": step["bundle"], "members": step["_orig"]}}
+    for sig, det in probs:
+      ck.violation(sig, det + " ; action %r" % (step["bundle"],), rp)
+    nontriv = eng_classify(ck, step, before, res)
+    if nontriv:
+      ck.nontrivial_case({"engine": step["bundle"], "history": len(self.history), "h0": self.history[0][0][1]})
+      ck.sample({"engine_action": step["bundle"],
+                 "chosen": [m.get("chosen") for m in step["members"]]}, limit=6)
+    if res.ok and after is not None and not probs:
+      try:
+        for op, actual, what in eng_tie_ops(step, before):
+          self.tie.append((op, actual, what, rp))
+      except Exception as e:     # pylint: disable=broad-except
+        ck.count("eng:tie_not_computed_%s" % type(e).__name__)
+    if res.ok:
+      self.history.append(step["bundle"])
+      self.dirty = self.dirty or bool(probs)
+    if after is not None:
+      self.obs = after
+    return res.ok and not probs
+
+
+def eng_prepare(step):
+  """Remember the members as generated (refs of records that do not exist yet are filled in later)."""
+  step["_orig"] = [dict(m) for m in step["members"]]
+  return step
+
+
+def eng_run_ties(ck, ties):
+  ops = [t for t in ties if t[0] is not None]
+  first = None
+  for op, actual, what, rp in ties:
+    if op is None:
+      ck.count("eng:tie_unchanged_request")
+      if actual != what and first is None:
+        first = {"what": "request equal to the current id", "impl": actual, "model": what, "engine_replay": rp}
+  if ops:
+    outs = ck.driver([t[0] for t in ops])
+    for (op, actual, what, rp), mo in zip(ops, outs):
+      ck.count("eng:tie_model_picks")
+      if mo.get("r") != actual:
+        ck.count("eng:tie_disagreements")
+        if first is None:
+          first = {"what": what, "op": op, "impl": actual, "model": mo, "engine_replay": rp}
+  return first
+
+
+def engine_level(ck):
+  """Several names requested in one user action / bundle, through the real engine."""
+  import time
+  t0, c0 = time.time(), time.process_time()
+  rng = ck.rng
+  ties = []
+  # 1. fixed witnesses on one document
+  s = EngSession(ck, ENG_WITNESS_BUILD)
+  ck.count("eng:documents")
+  for fam, sel, reqs in ENG_WITNESSES:
+    s.step(eng_prepare(eng_witness_step(s.obs, fam, sel, reqs)))
+    ck.count("eng:fixed_witnesses")
+  ties += s.tie
+  s = EngSession(ck, ENG_WITNESS_BUILD + [[["CreateViewSection", 1, 0, "record", [2], None]]])
+  ck.count("eng:documents")
+  for fam, sel, reqs in ENG_WITNESSES_SUMMARY:
+    s.step(eng_prepare(eng_witness_step(s.obs, fam, sel, reqs)))
+    ck.count("eng:fixed_witnesses")
+    ck.count("eng:actions on a document with a summary table")
+  # 2. generated documents, each taking a sequence of multi-name actions (ids pile up: X, X2, ...)
+  n_docs = 9 if ck.tier == "quick" else 80
+  fams = list(ENG_TABLE_FAMILIES) * 2 + list(ENG_COL_FAMILIES) * 2 + ["bulk_tableId", "bulk_title", "bulk_colId"]
+  for d in range(n_docs):
+    summary = (d % 3 == 2)
+    s = EngSession(ck, eng_build(rng, summary=summary))
+    ck.count("eng:documents")
+    n_steps = 8 if ck.tier == "quick" else 10
+    for i in range(n_steps):
+      fam = rng.choice(fams)
+      if summary and i in (0, 3):
+        fam = "bulk_tableId_summary"
+      step = eng_gen_step(rng, s.obs, fam)
+      if step is None:
+        ck.count("eng:step_not_applicable")
+        continue
+      if summary:
+        ck.count("eng:actions on a document with a summary table")
+      if not s.step(eng_prepare(step)) and s.dirty:
+        # an accepted action left ids that violate the property: later actions on this document would
+        # be blamed for them
+        ck.count("eng:documents abandoned after a violation")
+        break
+    # last action on this document: records added directly to the column metadata
+    if d % 3 == 0 and not s.dirty:
+      step = eng_gen_step(rng, s.obs, "meta_add_cols")
+      if step is not None:
+        s.step(eng_prepare(step))
+    ties += s.tie
+  first = eng_run_ties(ck, ties)
+  ck.extra["engine_level_wall_s"] = round(time.time() - t0, 2)      # reported only
+  ck.extra["engine_level_cpu_s"] = round(time.process_time() - c0, 2)
+  if first and not ck.has_impl_violation():
+    ck.broken("correspondence engine batch naming vs per-name picks of Grist.Identifiers",
+              "an id chosen by the engine for one of several names requested in one action differs from the model's "
+              "pick for the avoid set rebuilt by the harness, and the property's clauses hold on all explored inputs",
+              first)
+
+
+def eng_replay(ck, case):
+  """Replay of an engine-level violation: rebuild the document from the recorded history, apply the
+  recorded action, judge it with the same oracle."""
+  s = EngSession(ck, case["history"])
+  step = dict(case["step"])
+  step["members"] = [dict(m) for m in step["members"]]
+  for m in step["members"]:
+    m.setdefault("ref", None)
+  ok = s.step(eng_prepare(step))
+  print("replay: engine action %r -> %s" % (step["bundle"], "property holds" if ok else "violation"))
+  print("replay: chosen ids %r" % ([m.get("chosen") for m in step["members"]],))
+  first = eng_run_ties(ck, s.tie)
+  if first and not ck.has_impl_violation():
+    ck.broken("correspondence engine batch naming vs per-name picks of Grist.Identifiers",
+              "model and engine differ on the replayed action", first)
+  ck.nontrivial_case("replay")
 
 
 def replay(ck, rp):
   from gx import translate
   import identifiers
   case = rp["replay"]
+  if isinstance(case, dict) and (case.get("engine") or "engine_replay" in case):
+    translate.gen_keywords()
+    ck.lean(["GristProps.C21"])
+    return eng_replay(ck, case.get("engine_replay") or case)
   corr = isinstance(case, dict) and "case" in case      # a correspondence (model != code) replay
   if corr:
     case = case["case"]
